@@ -175,6 +175,12 @@ class Model():
         An asset matching the name if it exists in the model.
         """
 
+        if any(existing is asset for existing in self.assets):
+            raise ValueError(
+                f'Asset "{asset.name}"({asset.id}) is already part of '
+                f'model "{self.name}".'
+            )
+
         # Check for duplicates, then set the asset ID: a rejected asset
         # must keep the id it has (it may be part of the model already).
         new_asset_id = asset_id if asset_id is not None else self.next_id
